@@ -40,6 +40,10 @@ fn same_c(c: &str) -> &'static str {
 pub fn alphabet() -> Vec<P> {
     let mut v = vec![P::omitted("?"), P::amt("?", "0", "")];
     v.push(P::amt("?", "0", "").with_ann(Ann::Rate("2", "X")));
+    // assertions that hold on a fresh account: in the posting's own commodity, and `= 0` in a commodity no entry has
+    // mentioned before (an assertion must not change whether a balanced transaction is accepted)
+    v.push(P::amt("?", "1", "X").with_bal(crate::refledger::Bal::Val("0", "W")));
+    v.push(P::amt("?", "-1", "X").with_bal(crate::refledger::Bal::Val("0", "V")));
     // assignments (`Account = X`): the assigned amount takes part in balancing like a written one
     v.push(P::assign("?", crate::refledger::Bal::Zero));
     v.push(P::assign("?", crate::refledger::Bal::Val("0", "X")));
